@@ -132,8 +132,26 @@ def observe(case, second_pass: bool = False):
     return r, lnt, obs
 
 
-def base_universe(fx_bytes=4000, mx=1, rulesets=("all", "format"), rc_rulesets=("all",), jj=0, dialects=None):
+def base_universe(fx_bytes=4000, mx=1, rulesets=("all", "format"), rc_rulesets=("all",), jj=0, dialects=None, cx=1, feu=True):
     u = []
+    if cx:
+        for i, c in enumerate(common.cx_cases(cx, fx_bytes, dialects)):
+            c = dict(c)
+            c["rules"] = "all" if i % 2 else "layout"
+            c["id"] += f"|rules={c['rules']}"
+            c["stratum"] += f"|{c['rules']}"
+            u.append(c)
+    if feu:
+        # fix_even_unparsable switches the whole-file validation of fixes off: parsable inputs must stay parsable
+        for i, c in enumerate(common.fx_cases(fx_bytes, dialects)):
+            if i % 3 and c["dialect"] != "bigquery":
+                continue
+            c = dict(c)
+            c["rules"] = "all"
+            c["core"] = {"fix_even_unparsable": True}
+            c["id"] += "|rules=all|feu"
+            c["stratum"] += "|feu"
+            u.append(c)
     for rs in rulesets:
         for c in common.fx_cases(fx_bytes, dialects):
             c = dict(c)
